@@ -36,7 +36,7 @@ def x_defs(e):
 class Mat:
     """A materialised scenario."""
 
-    def __init__(self, scen, base, seed=0, alias=None, ext_c=".c", plain=False, ext_of=None):
+    def __init__(self, scen, base, seed=0, alias=None, ext_c=".c", plain=False, ext_of=None, dotted=False):
         self.scen = scen
         self.base = base                      # temp dir
         self.root = os.path.join(base, "root")
@@ -63,7 +63,7 @@ class Mat:
                 text, lines_of = self.text[f["copyof"]], self.lines_of[f["copyof"]]
             else:
                 text, lines_of = render.render_c(f["items"], seed=rnd.random(), uid="v" + "".join(c for c in fid if c.isalnum()),
-                                                 plain=plain, xstr=xstr)
+                                                 plain=plain, xstr=xstr, dotted=dotted)
             if f.get("copyof") and random.Random(f"{seed}-hardlink").random() < 0.5:
                 # the copy is a second directory entry of the same inode (cp -l): still an ordinary file
                 os.link(self.paths[f["copyof"]], path)
